@@ -140,6 +140,25 @@ def streamed (cfg : Cfg) (vars : Option (List (String × PV))) : List Frame → 
       | .typeError => none
       | _ => some fs
 
+/-! ### Wire-level vocabulary used by the C13 statements -/
+
+def pingF (f : Frame) : Bool := (letter f).isPing
+
+/-- number of pings the subscription consumes -/
+def pingCount (fs : List Frame) : Nat := (prefixUntilTerminal fs).countP pingF
+
+/-- the frames the streaming loop is handed: the continuing prefix and the first terminal frame -/
+def consumed (fs : List Frame) : List Frame := prefixUntilTerminal fs ++ (firstTerminal fs).toList
+
+/-- deliveries and sends only (no yields, no close): the wire-level interleaving -/
+def Ev.isIO : Ev → Bool
+  | .recv _ => true
+  | .send _ => true
+  | _ => false
+
+/-- the wire-level interleaving the protocol demands for one consumed frame -/
+def ioOf (f : Frame) : List Ev := if pingF f then [.recv f, .send .pong] else [.recv f]
+
 /-! ### Finding triggers (one per open finding of findings.d/C13.json) -/
 
 /-- C13-F2: a `next` frame whose data is falsy is consumed by the streaming loop. -/
